@@ -310,11 +310,11 @@ def s1_cover_low(scn, v, o):
         return []
     q, G = v["q"], list(o["G"])
     _L, W = scn.per_point(v)
-    return [Rel("le", G[0], q[i] - W[i], "min(q_calc) <= q[%d]-W" % i, scale=0.0)
+    # not claimed where the first grid point that survives the cutoff is an interior point of the
+    # geometric extension: its position depends on the (uninterpreted) logarithms
+    decided = g_not(s1_swap_cut(scn, v))
+    return [Rel("le", G[0], q[i] - W[i], "min(q_calc) <= q[%d]-W" % i, scale=0.0, when=decided)
             for i in range(len(q))] + _data_in_grid(G, q)
-
-
-s1_cover_low.first_exclude = s1_swap_cut
 
 
 def s1_cover_high(scn, v, o):
@@ -814,6 +814,8 @@ def configs(chk):
             if mode == "00" and shape == "vector":
                 continue
             for n in range(1, nmax + 1):
+                if quick and mode == "LW" and shape == "vector" and n > 1:
+                    continue    # per-point (L, W) on two points: minutes of nlsat model search; thorough tier
                 jobs.append(("slit1d", {"mode": mode, "shape": shape, "n": n}))
                 if shape == "scalar" or not quick:
                     for nc in ((2, 3) if quick else (2, 3, 4, 5)):
@@ -869,6 +871,10 @@ def run(chk):
                        "pinhole coverage is claimed up to 2*MINIMUM_RESOLUTION = 2e-8 (the code's extension threshold)",
                        "normalisation of slit columns at constructor level is claimed outside the documented low-q floor "
                        "(every q - W >= 0.02*min(q)); inside it is the known finding window-below-low-q-floor",
+                       "Slit1D low-side coverage is not claimed when the lower limit the code extends the grid to "
+                       "(min(q - q_length) on this tree, because of the role swap; min(q - q_width) once repaired, where the "
+                       "case is part of the low-q-floor finding) lies strictly inside (0, 0.02*min(q)) below every window: "
+                       "which extension point survives the cutoff depends on logarithm values that are uninterpreted",
                        "user-supplied q_calc: strictly increasing, > 0, at least two points above the 0.02*min(q) cutoff and "
                        "one inside every pinhole window",
                        "2-D: qx != 0",
